@@ -30,11 +30,13 @@ check("C19", "exploration", "runtime monitoring: reference-model monitor (set of
 check("C17", "exploration", "runtime monitoring: independent verification oracle (pure-integer RSA + second library) on freshly generated real key files",
       "Real keygen() output on disk is decoded independently and checked algebraically against the private key; every shipped signer signs random and extreme "
       "20-byte tokens and each signature is verified as adbd verifies it (PKCS#1 v1.5 over the token as SHA-1 digest) with integer arithmetic and with "
-      "cryptography's verifier; the three signers must agree byte for byte.",
+      "cryptography's verifier; the three signers must agree byte for byte, also when signer objects are shared by threads with pauses injected at source lines of the signing code; "
+      "key file names with dots, and the ' login@host' comment with each lookup failing on its own.",
       "Trusted: Python big-integer arithmetic, the cryptography package as PEM loader and cross-checking verifier, the AOSP description of adbd's verification.",
       "DESIGN.md section 4 C17")
 check("C13", "exploration", "runtime monitoring: one-boolean model monitor over exhaustively enumerated API histories, transport write log and sandbox directory as observation points",
-      "All sequences up to length 3 (quick) / 4 (thorough) over 19 symbols (5 kinds of connect, close, 9 operations, 4 empty-path operations) plus random longer ones run on "
+      "All sequences up to length 3 (quick) / 4 (thorough) over 28 symbols (6 kinds of connect incl. a public-key wait that times out, close, 9 operations, 4 empty-path operations, "
+      "directory and BytesIO transfers, generators created now and advanced later), directed histories (every operation repeated after the connection it succeeded on went away) plus random longer ones run on "
       "both implementations; after every step `available` is compared with the model, during every connect attempt it is sampled at each transport call and in the auth callback, "
       "and a disconnected operation must raise the documented error without a byte written or a file created.",
       "Trusted: the in-memory transport's write log; the interpretation that either documented exception is acceptable when both apply.",
